@@ -91,6 +91,7 @@ class Sides:
             return dst
         self.drv = private(vlib.build_drivers(["parse_driver"])["parse_driver"], "drv-hooks", "parse_driver")
         self.asan = private(vlib.build_drivers(["parse_driver"], "asan")["parse_driver"], "drv-asan", "parse_driver_asan")
+        self.deps = private(vlib.build_drivers(["deps_driver"])["deps_driver"], "drv-hooks", "deps_driver")
         self.model = vlib.model_bin(AREA)
 
 def sides(chk):
@@ -293,7 +294,7 @@ def check_answer_shape(chk, rq, d, a):
             chk.violation("error-position-out-of-bounds", "error position %d reported for a buffer of %d bytes" % (pos, len(d)),
                           dict(request=rq, input_repr=repr(d), implementation=a), found_input=True, broken="c19 oracle (positions inside the buffer)")
 
-def deps_part(chk):
+def deps_part(chk, report=True):
     """C19, dependency-file parsers: every byte-string stream through the normal and the ASan build of the driver
     (exact-size heap buffers without terminator) and through the extracted model.  Oracle on the implementation: no
     sanitizer report, no crash, an answer within the timeout, problems reported only through the error callback with
@@ -323,7 +324,8 @@ def deps_part(chk):
             i = reqs.index("depinfo " + hx(b"\0v\0\0"))
             chk.sample(dict(kind="corpus", input_repr=repr(ds[i]), request=reqs[i], implementation=ans[i]))
     chk.cov["deps_byte_string_cases"] = total
-    report_disagreements(chk, "deps-parser")
+    if report:      # run() reports once, after the C11 oracles had their say on the implementation
+        report_disagreements(chk, "deps-parser")
     return total
 
 def report_disagreements(chk, label):
@@ -344,7 +346,12 @@ def writer_part(chk):
     rng = chk.rng
     s = sides(chk)
     n = chk.n(2500, 60000)
-    cases = []      # (rules [(target, paths, sep)], data)
+    cases = []      # (rules [(target, paths, sep)], data, line ends)
+    # directed first (so that a replay carries a short path): escapes AFTER an interior colon, for every separator
+    for sp in range(3):
+        for p in COLON_ESCAPE_PATHS:
+            cases.append(([(b"out", [p], sp)], py_md_write(b"out", [p], sp), [0]))
+        cases.append(([(b"o ut", COLON_ESCAPE_PATHS, sp)], py_md_write(b"o ut", COLON_ESCAPE_PATHS, sp), [0]))
     for i in range(n):
         nr = 1 if rng.random() < 0.6 else rng.randint(2, 3)
         rules = []
@@ -370,6 +377,7 @@ def writer_part(chk):
                           broken="correspondence: Parse.MakeDeps.md_write")
             break
     cases = [(r, d) for (r, d, e) in cases]
+    chk.cov["directed_colon_escape_paths"] = [repr(p) for p in COLON_ESCAPE_PATHS]
     reqs, ds = requests_for([d for (r, d) in cases], "md")
     ans = differential(chk, "writer-outputs", reqs, ds)
     for k, (rules, d) in enumerate(cases):
@@ -393,7 +401,7 @@ def writer_part(chk):
                           rp, found_input=True, broken="c11 oracle (multi rule) on implementation")
         elif [unhx(e[2]) for e in e0 if e[0] == "S"] != [t for (t, ps, sp) in rules]:
             chk.violation("roundtrip-targets", "rule names are not recovered", rp, found_input=True, broken="c11 oracle (round trip) on implementation")
-    k = next(i for i, (r, d) in enumerate(cases) if len(r) > 1 and any(b":" in p for p in r[0][1]))
+    k = next(i for i, (r, d) in enumerate(cases) if i > 40 and len(r) > 1 and any(b":" in p for p in r[0][1]))
     chk.sample(dict(kind="writer-output", rules=[dict(target=repr(t), paths=[repr(p) for p in ps], sep=repr(SEPS[sp])) for (t, ps, sp) in cases[k][0]],
                     file_repr=repr(cases[k][1]), implementation=ans[2 * k]))
     # malformed families whose verdict the property text fixes: an error must be reported
@@ -476,7 +484,6 @@ def writer_part(chk):
             chk.violation("depinfo-malformed-" + fam, "malformed dependency-info file (%s): expected %s %s, got %s" % (fam, "exactly" if exact else "among the events", want, a[:200]),
                           dict(family=fam, file_hex=hx(d), file_repr=repr(d), request=rq, implementation=a), found_input=True,
                           broken="c11 oracle (malformed dependency-info files are reported) on implementation")
-    report_disagreements(chk, "writer")
 
 
 # ------------------------------------------------------------------ C11: path resolution (glue statements of ShellCommand.cpp)
@@ -551,6 +558,9 @@ commands:
 
 NAMES = [b"h d", b"h#d", b"h$d", b"h\\d", b"h:d", b"h'\"d", b"\x80\xff", b"h:", b" h", b"$", b"#h", b"h\\", b"$$h", b"h d#e$f\\g:i",
          b"./h", b"d/../h", b"d//h", b"h.h"]
+# paths whose FIRST escape sequence comes after an interior colon (the continuation call of lexWord handles it)
+COLON_ESCAPE_PATHS = [b"a:b c", b"x:y#z", b"p:q\\r", b"m:n$o", b"inc:dir/my hdr.h", b"a:b:c d", b"k:\\", b"k:$"]
+NAMES += COLON_ESCAPE_PATHS[:4] + [b"inc:my hdr.h"]
 STYLES = ["makefile", "dependency-info"]
 ALL_STYLES = STYLES + ["makefile-ignoring-subsequent-outputs"]
 MODES = ["relative", "absolute", "relative-wd", "absolute-wd"]
@@ -672,6 +682,8 @@ def cli_part(chk):
                     scen.append((style, NAMES[i % len(NAMES)], mode, event, i))
                     i += 1
         scen.append(("makefile", NAMES[13], "relative", "none", 1))
+        for j, nm in enumerate(COLON_ESCAPE_PATHS[:4]):
+            scen.append(("makefile", nm, MODES[j % 4], EVENTS[j % 3], j))
         scen.append(("makefile-ignoring-subsequent-outputs", NAMES[13], "relative-wd", "modify", 4))
         scen.append(("makefile-ignoring-subsequent-outputs", NAMES[4], "absolute", "create", 3))
         scen.append(("dependency-info", NAMES[13], "absolute-wd", "none", 0))
@@ -727,17 +739,123 @@ def cli_part(chk):
             ok += len(rp["builds"])
             shutil.rmtree(S, ignore_errors=True)
     chk.cov["cli_model_mismatches"] = len(mism)
-    if mism:
+    if mism and not any(v["found"] for v in chk.violations):
         # the implementation does what the property asks (or fails it in another way) where the glue model says otherwise
         chk.violation("glue-correspondence-cli", "the glue model (Parse/DepsGlue.v: keys / success flag of a dependency file) and llbuild disagree on %d histories: "
                       "the model is out of date with lib/BuildSystem/ShellCommand.cpp" % len(mism),
                       dict(broken="correspondence: Parse.DepsGlue.process_discovered vs ShellCommand::processDiscoveredDependencies", examples=mism[:4]),
                       found_input=False, broken="correspondence: Parse.DepsGlue.process_discovered")
     chk.cov["cli_scenarios"] = len(scen) + len(mal)
-    if not chk.violations:
-        shutil.rmtree(base, ignore_errors=True)       # failing sandboxes are kept for inspection
     chk.cov["cli_builds"] = builds
     chk.cov["traces_validated_against_impl"] = ok
+
+
+# ------------------------------------------------------------------ C11: several builds through ONE in-process build system
+
+def inprocess_history(chk, S, style, name, mode, variant, use_db, start_missing):
+    """One loaded description, one BuildSystemFrontend (harness/cpp/deps_driver.cpp), a sequence of builds with changes
+    of the discovered path in between.  Returns (key or None, what, replay dict)."""
+    shutil.rmtree(S, ignore_errors=True)
+    wd = "sub dir" if mode.endswith("-wd") else None
+    cmdwd = os.path.join(S, wd) if wd else S
+    os.makedirs(os.path.join(cmdwd, "d"))
+    P = os.path.join(cmdwd.encode(), name)
+    spelled = P if mode.startswith("absolute") else name
+    data = deps_file(style, spelled, variant)
+    open(os.path.join(cmdwd, "deps.src"), "wb").write(data)
+    stamp = [10**18]
+    def write(content):
+        open(P, "wb").write(content)
+        stamp[0] += 5 * 10**9
+        os.utime(P, ns=(stamp[0], stamp[0]))
+    if not start_missing:
+        write(b"1")
+    bf = os.path.join(S, "build.llbuild")
+    open(bf, "w").write(BUILD_TMPL % (('    working-directory: "%s"\n' % wd) if wd else "", style))
+    counter = os.path.join(cmdwd, "counter")
+    steps = (["none", "create", "modify", "none", "delete", "create", "modify"] if start_missing
+             else ["none", "modify", "modify", "none", "delete", "create", "modify", "modify"])
+    log = []
+    rp = dict(inprocess=dict(style=style, name=repr(name), name_hex=hx(name), mode=mode, variant=variant, use_db=use_db, start_missing=start_missing),
+              path=repr(P), spelled_in_deps_file=repr(spelled), deps_file_repr=repr(data), working_directory=wd, sandbox=S, steps=["initial"] + steps, builds=log,
+              oracle="one BuildSystemFrontend used for all builds; executions counted through the command's side-effect file and the commandStarted callback; "
+                     "the command must run after EVERY observable change of the discovered path and must not run otherwise")
+    it = vlib.Interactive(sides(chk).deps)
+    try:
+        a = it.ask("open %s %s %s 0" % (hx(S.encode()), hx(bf.encode()), hx(os.path.join(S, "build.db").encode()) if use_db else "-"))
+        if a != "ok":
+            return ("inprocess-driver", "deps_driver: %s" % a, rp)
+        want = 0
+        size = 1
+        for i, ev in enumerate(["initial"] + steps):
+            if ev == "modify":
+                size += 1
+                write(b"x" * size)
+            elif ev == "create":
+                size += 1
+                write(b"y" * size)
+            elif ev == "delete":
+                os.unlink(P)
+            if ev != "none":
+                want += 1
+            a = it.ask("build -")
+            f = dict(x.split("=", 1) for x in a.split(" "))
+            n = len(open(counter).read().split()) if os.path.exists(counter) else 0
+            ran = f.get("ran", ".") != "."
+            log.append(dict(build=i + 1, before=ev, ok=f.get("ok"), commands_started=f.get("ran"), executions_so_far=n, expected=want,
+                            messages=unhx(f.get("msgs", "-")).decode("utf-8", "replace")[-300:]))
+            if f.get("ok") != "1":
+                return ("inprocess-build-failed", "build %d of a sequence through one build system failed: %s" % (i + 1, log[-1]["messages"]), rp)
+            if n < want or (ev != "none" and not ran):
+                nth = sum(1 for e in (["initial"] + steps)[1:i + 1] if e != "none")
+                return ("inprocess-change-not-honoured",
+                        "one build system, several builds (%s style): the command reported reading %r but did not re-execute after the %s of it "
+                        "(change number %d of the sequence; build %d)" % (style, P, {"modify": "modification", "delete": "deletion", "create": "creation"}[ev], nth, i + 1), rp)
+            if n > want or (ev == "none" and ran):
+                return ("inprocess-spurious-reexecution", "one build system, several builds: the command re-executed although nothing changed (build %d)" % (i + 1), rp)
+    except RuntimeError as e:
+        rp["driver_error"] = str(e)[-1500:]
+        return ("inprocess-crash", "the in-process build driver died during a sequence of builds", rp)
+    finally:
+        it.close()
+    return (None, "", rp)
+
+def inprocess_part(chk):
+    base = os.path.join(sandbox(), "inproc")
+    shutil.rmtree(base, ignore_errors=True)
+    os.makedirs(base)
+    names = [b"hdr.h", b"h d", b"a:b c", b"h$d#e\\f", b"x:y#z", b"\x80\xff", b"./h", b"m:n$o"]
+    hist = []
+    if chk.quick():
+        i = 0
+        for style in ALL_STYLES:
+            for mode in MODES:
+                hist.append((style, names[i % len(names)], mode, i % 3, i % 4 != 3, i % 5 == 4))
+                i += 1
+    else:
+        i = 0
+        for style in ALL_STYLES:
+            for name in names:
+                for mode in MODES:
+                    for use_db in (True, False):
+                        hist.append((style, name, mode, i % 3, use_db, i % 3 == 2))
+                        i += 1
+    builds = ok = 0
+    for k, (style, name, mode, variant, use_db, start_missing) in enumerate(hist):
+        S = os.path.join(base, "p%d" % k)
+        key, what, rp = inprocess_history(chk, S, style, name, mode, variant, use_db, start_missing)
+        builds += len(rp["builds"])
+        chk.count(("inproc", style, name, mode, variant, use_db, start_missing))
+        if k == 0:
+            chk.cov["inprocess_sample"] = dict(history=rp["inprocess"], builds=[(b["before"], b["commands_started"], b["executions_so_far"]) for b in rp["builds"]])
+        if key:
+            chk.violation(key, what, rp, found_input=True, broken="c11 oracle (every change of a discovered path re-executes the command) on one in-process BuildSystemFrontend")
+        else:
+            ok += len(rp["builds"])
+            shutil.rmtree(S, ignore_errors=True)
+    chk.cov["inprocess_histories"] = len(hist)
+    chk.cov["inprocess_builds"] = builds
+    chk.cov["traces_validated_against_impl"] = chk.cov.get("traces_validated_against_impl", 0) + ok
 
 
 # ------------------------------------------------------------------ entry points
@@ -745,10 +863,16 @@ def cli_part(chk):
 def run(chk):
     sides(chk)
     chk.proof_gate()
-    deps_part(chk)
+    # the property's own oracles on the implementation first; model/implementation disagreements are reported last and
+    # only when no oracle produced a failing input
     writer_part(chk)
-    glue_part(chk)
     cli_part(chk)
+    inprocess_part(chk)
+    deps_part(chk, report=False)
+    report_disagreements(chk, "parsers")
+    glue_part(chk)
+    if not chk.violations:
+        shutil.rmtree(sandbox(), ignore_errors=True)       # failing sandboxes are kept for inspection
     shutil.rmtree(sides(chk).bindir, ignore_errors=True)
     chk.assumptions = ["POSIX branch of lexWord and of llvm::sys::path (the Windows drive-letter branch is not modelled)",
                        "the parser models are tied to the code by differential execution (exhaustive over small alphabets, sampled beyond)",
@@ -758,8 +882,9 @@ def run(chk):
                       rule="parsers: corpus, all strings over 7-8 (makefile) / 4-6 (dependency-info) special bytes up to length 5-7, every truncation of valid files, grammar mutations, random bytes, "
                            "writer outputs for path lists over an alphabet with every special byte (3 separators, 1-3 rules), malformed families; each through the normal build, the ASan build and the model. "
                            "glue: words over '/.a' up to length 4 x 11 working directories. cli: style x path spelling x (relative|absolute) x (with|without working-directory) x (modify|delete|create|none). "
-                           "non-trivial = the implementation emits at least one event (parsers), relative word (glue), history with a change (cli); distinct by request / scenario",
-                      trusted=["hand-written models coq/Parse/MakeDeps.v, DepInfo.v, DepsGlue.v tied by correspondence", "harness/cpp/parse_driver.cpp",
+                           "in-process: one BuildSystemFrontend (deps_driver.cpp) used for 7-9 builds with modify / delete / create of the discovered path in between, 3 styles x spellings x modes x with/without database. "
+                           "non-trivial = the implementation emits at least one event (parsers), relative word (glue), history with a change (cli, in-process); distinct by request / scenario",
+                      trusted=["hand-written models coq/Parse/MakeDeps.v, DepInfo.v, DepsGlue.v tied by correspondence", "harness/cpp/parse_driver.cpp", "harness/cpp/deps_driver.cpp",
                                "extraction (ExtrOcamlBasic) + ocaml/vmodel_parse.ml", "clang-14 AddressSanitizer/UBSan as the observer of reads outside the buffer"])
 
 def replay(chk, rp):
@@ -780,4 +905,12 @@ def replay(chk, rp):
         print("scenario replayed: %s" % (("FAILS: " + key + " - " + what) if key else "passes"))
         for b in r2["builds"]:
             print("  ", b["step"], "exit", b["exit"], "executions", b["executions_so_far"])
+    ip = rp.get("inprocess")
+    if ip:
+        S = os.path.join(sandbox() + "-replay", "inproc")
+        os.makedirs(os.path.dirname(S), exist_ok=True)
+        key, what, r2 = inprocess_history(chk, S, ip["style"], unhx(ip["name_hex"]), ip["mode"], ip["variant"], ip["use_db"], ip["start_missing"])
+        print("in-process history replayed: %s" % (("FAILS: " + key + " - " + what) if key else "passes"))
+        for b in r2["builds"]:
+            print("  build", b["build"], "after", b["before"], "started:", b["commands_started"], "executions", b["executions_so_far"], "expected", b["expected"])
     return run(chk)
